@@ -40,6 +40,10 @@ def _wire(out, spec):
             shared >> inp
         elif kind == "next":
             out >> fm.adapters.NextTime() >> inp
+        elif kind == "scale2_next":  # notifications have to travel through two pass-through adapters
+            out >> fm.adapters.Scale(1.0) >> fm.adapters.Scale(1.0) >> fm.adapters.NextTime() >> inp
+        elif kind == "scale2_linear":
+            out >> fm.adapters.Scale(1.0) >> fm.adapters.Scale(1.0) >> fm.adapters.LinearTime() >> inp
         elif kind == "linear":
             out >> fm.adapters.LinearTime() >> inp
         else:
@@ -113,7 +117,11 @@ def h_events(ctx, _holder=None):
         b = _pull(ends_t[j], r)
         ctx.log(f"ev{i}", [j, a[0], a[1]])
         ctx.cover("pull:" + a[0])
-        if a[0] != b[0]:
+        if a[0] == "no-data":
+            # something has been published (the first event is a publication): every end point, also one behind
+            # push-based adapters, has data to answer from
+            ctx.fail("no-data-after-a-publication", {"sig": "starved", "consumer": spec[j]})
+        elif a[0] != b[0]:
             ctx.fail("differs-from-unlimited-history",
                      {"sig": "drop", "consumer": spec[j], "real": str(a), "unlimited": str(b)})
         elif a[0] == "ok":
@@ -287,6 +295,8 @@ def families(tier):
         ("two_behind_one_adapter", ["shared", "shared"], 5, 6),
         ("two_behind_one_delay_adapter", ["shared_dfix", "shared_dfix"], 5, 6),
         ("next_and_direct", ["next", "direct"], 4, 6),
+        ("next_behind_two_adapters", ["scale2_next", "direct"], 4, 5),
+        ("linear_behind_two_adapters", ["scale2_linear"], 0, 5),
         ("linear_and_direct", ["linear", "direct"], 0, 5),
         ("three_direct", ["direct", "direct", "direct"], 0, 6),
         ("four_mixed", ["direct", "shared", "shared", "next"], 0, 5),
